@@ -6,6 +6,7 @@ import glob, json, os, re, subprocess
 ROOT = os.path.dirname(os.path.dirname(os.path.abspath(__file__)))
 k = json.load(open(os.path.join(ROOT, "KNOWN_FINDINGS.json")))
 consts = json.load(open(os.path.join(ROOT, "spec", "consts.json")))
+origins = json.load(open(os.path.join(ROOT, "spec", "origins.json"))) if os.path.exists(os.path.join(ROOT, "spec", "origins.json")) else []
 props = [json.loads(l) for l in open(os.path.join(ROOT, "properties.jsonl"))]
 seeds = {}
 for p in glob.glob(os.path.join(ROOT, "seeded", "*", "meta.json")):
@@ -29,13 +30,15 @@ for p in props:
     if cfg.get("translator"): tie = "**T** + C"
     nk = sum(1 for e in consts if pid in e.get("props", []))
     if nk: tie += " + K(%d)" % nk
+    no = sum(1 for e in origins if pid in e.get("props", []))
+    if no: tie += " + O(%d)" % no
     nfix = sum(1 for f in k["fixed"] if f["property"] == pid)
     opn = [f["id"] for f in k["findings"] if f["property"] == pid and f.get("status") == "open"]
     s = seeds.get(pid, [0, 0])
     rows.append("| %s | %s | %s | %d (%d partial, %d refuted) | %d fixed, %d open | %d/%d |" % (
         pid, ", ".join(models), tie, len(thms), npart, nref, nfix, len(opn), s[1], s[0]))
 table = ("| id | models (coq/Model) | tie | theorems in Props/Cxx.v | findings | seeded changes caught |\n|---|---|---|---|---|---|\n" + "\n".join(rows) +
-         "\n\nTie: C = correspondence check (model evaluated in Coq on the cases the harness ran on the real code), T = translator (model regenerated from the source), K(n) = constants tie (n model constants re-read from the source). "
+         "\n\nTie: C = correspondence check (model evaluated in Coq on the cases the harness ran on the real code), T = translator (model regenerated from the source), K(n) = constants tie (n model constants re-read from the source), O(n) = result-origin tie (n API functions whose result origins and effects are re-derived from the source). "
          "Totals: %d theorems, %d findings fixed in /repo, %d open." % (
              sum(int(r.split("|")[4].split()[0]) for r in rows), len(k["fixed"]), sum(1 for f in k["findings"] if f.get("status") == "open")))
 fixed = "\n".join("* %s" % f["line"] for f in k["fixed"])
